@@ -4,6 +4,10 @@ import json, os
 HERE = os.path.dirname(os.path.dirname(os.path.abspath(__file__)))
 
 CHECKS = {
+ 'C20': dict(level='exploration', ref='3/C20',
+   technique='seeded prefix histories over the union operation alphabet (incl. failed operations, locked configs, overlapping constants defined in interactive mode), then clear_config, with a fresh twin world (harness reset + same registrations/constants) running the same observations and suffix history; a share of runs races the clear with operative-config readers under the simulated scheduler',
+   text='After the clear, config_str, operative_config_str, the lock flag, query_parameter on every key ever bound, default-only probe calls, singleton caches and constant lookups are observed in the cleared world and in the fresh twin, then the same suffix history runs on both; the observation logs must be identical (indistinguishable by later behaviour, not only by a snapshot), and the clear itself must not raise. With clear_constants=True only gin.REQUIRED may remain.',
+   note='Registrations and finalize hooks are outside what clear_config resets; a reader that fails while racing with the clear is not judged (no property promises that), only the state the clear leaves behind.'),
  'C11': dict(level='exploration', ref='3/C11',
    technique='seeded histories of binding attempts (parameter class x API path x scope) with re-registrations in interactive mode, rejected operation as the fault: bit-identical store snapshot before/after, admission model (rule A6) as oracle',
    text='Attempts to bind valid, unknown, listed / unlisted, variadic-named and any-name-under-**kwargs parameters, methods through Class.method and by bare name, and unregistered configurables are made through string keys, tuple keys, config lines, indented blocks, scoped keys and finalize-hook mappings while the store is non-empty; a rejected attempt must raise and leave bindings (values by identity), provenance, config_str and the lock flag exactly as before, its value must never reach a later call, and an accepted one must be visible under the complete name. Re-registration in interactive mode changes lists / signatures between attempts.',
